@@ -166,6 +166,10 @@ class SimBase:
                 raise HandlerBoom('connect')
             if out == 'raise-type':
                 raise HandlerBoomType('connect')
+            if out == 'raise-base':
+                # (a failure that is not an Exception subclass: a time-out
+                # of the concurrency library, a cancelled future's result)
+                raise HandlerBoomBase('connect')
             return out
         return None
 
